@@ -1,21 +1,29 @@
 #!/usr/bin/env python3
 """Confirms a seeded change independently of its author.
-usage: tools/confirm_seed.py <out_dir with patch.diff + demo_test.rs> <crate> [demo file name]
+usage: tools/confirm_seed.py <out_dir with patch.diff + demo_test.rs> <crate> [demo file name] [--cfg]
+(--cfg: the demonstration alone is built with RUSTFLAGS='--cfg edp_rs_verif' and run with --test-threads=1, for demos that
+stand up a fake EPMD through the cfg-guarded port override; the existing tests always run with the guard off)
 In a fresh scratch worktree of /repo: existing tests of <crate> and the demo, without and with the patch.
 Prints a one-line verdict; removes the worktree and its build output afterwards."""
 import os, re, shutil, subprocess, sys
-out, crate = sys.argv[1], sys.argv[2]
-demo_name = sys.argv[3] if len(sys.argv) > 3 else "demo_seed.rs"
+args = [a for a in sys.argv[1:] if a != "--cfg"]
+use_cfg = "--cfg" in sys.argv
+out, crate = args[0], args[1]
+demo_name = args[2] if len(args) > 2 else "demo_seed.rs"
 wt = "/tmp/mut/confirm-" + os.path.basename(out.rstrip("/"))
 subprocess.run(["git", "-C", "/repo", "worktree", "remove", "--force", wt], capture_output=True)
 subprocess.run(["git", "-C", "/repo", "worktree", "add", "--detach", wt, "HEAD"], check=True, capture_output=True)
 env = dict(os.environ, CARGO_NET_OFFLINE="true", CARGO_TARGET_DIR=wt + "/target")
 env.pop("RUSTFLAGS", None)
 def tests(extra):
-    p = subprocess.run(["cargo", "test", "-p", crate, "--offline", "--no-fail-fast"] + extra, cwd=wt, env=env,
+    e = env
+    if extra and use_cfg:
+        e = dict(env, RUSTFLAGS="--cfg edp_rs_verif", CARGO_TARGET_DIR=wt + "/target-cfg")
+        extra = extra + ["--", "--test-threads=1"]
+    p = subprocess.run(["cargo", "test", "-p", crate, "--offline", "--no-fail-fast"] + extra, cwd=wt, env=e,
                        stdout=subprocess.PIPE, stderr=subprocess.STDOUT, text=True)
     res = re.findall(r"test result: (\w+)\. (\d+) passed; (\d+) failed", p.stdout)
-    errs = len(re.findall(r"^error(\[|:)", p.stdout, re.M))
+    errs = len(re.findall(r"^error\[E\d+\]|^error: could not compile", p.stdout, re.M))
     return sum(int(a[1]) for a in res), sum(int(a[2]) for a in res), errs, p.stdout
 try:
     demo_dst = os.path.join(wt, "crates", crate, "tests", demo_name)
